@@ -1,4 +1,5 @@
 import M3d.Model.MeshDiag
+import M3d.Gen.HierAxis
 /-!
 # The sweep of `uncheckedMeshToHierarchy` seen geometrically (core-only, generic scalar)
 
@@ -68,4 +69,22 @@ instance [LE α] [DecidableLE α] (key : Nat → α) (sorted : List Nat) : Decid
 def compVerts (x : Comp) : List Nat := x.2.flatMap fun f => triVerts f.2
 
 end
+/-! ## The sweep axes of the current source (`M3d/Gen/HierAxis.lean`, regenerated on every run) -/
+
+/-- `(n, p)` ↦ `n / 10^p`: the exact value of a decimal literal. -/
+def decRat (d : Int × Nat) : Rat := (d.1 : Rat) / ((10 ^ d.2 : Nat) : Rat)
+
+/-- `model3d.arbitraryAxis`, the literals of the source taken exactly (the float64 values are
+their roundings: same signs). -/
+def axis3Q : Vec3 Rat :=
+  match M3d.Gen.HierAxis.axis3D with
+  | [x, y, z] => ⟨decRat x, decRat y, decRat z⟩
+  | _ => ⟨0, 0, 0⟩
+
+/-- `model2d.arbitraryAxis` (no third component). -/
+def axis2Q : Vec3 Rat :=
+  match M3d.Gen.HierAxis.axis2D with
+  | [x, y] => ⟨decRat x, decRat y, 0⟩
+  | _ => ⟨0, 0, 0⟩
+
 end M3d.MeshDiag
